@@ -420,6 +420,10 @@ struct SctpInner {
     // PR-SCTP: Advanced Peer Ack Point (RFC 3758)
     advanced_peer_ack_tsn: AtomicU32,
     forward_tsn_pending: AtomicBool,
+    /// When the last FORWARD TSN left while the peer's cumulative ack was still behind the
+    /// advanced peer ack point: it is re-sent after an RTO (RFC 3758 3.5 A5 / C3), because
+    /// the abandoned chunks it replaces are gone from the sent queue and no T3 covers it.
+    forward_tsn_sent_at: Mutex<Option<Instant>>,
     forward_tsn_streams: Mutex<Vec<(u16, u16)>>,
     has_pr_sctp: AtomicBool,
 
@@ -890,6 +894,7 @@ impl SctpTransport {
             inbound_streams: Mutex::new(HashMap::new()),
             advanced_peer_ack_tsn: AtomicU32::new(0),
             forward_tsn_pending: AtomicBool::new(false),
+            forward_tsn_sent_at: Mutex::new(None),
             forward_tsn_streams: Mutex::new(Vec::new()),
             has_pr_sctp: AtomicBool::new(false),
             last_send_or_ack: Mutex::new(Instant::now()),
@@ -1191,11 +1196,15 @@ impl SctpInner {
                 self.maybe_send_tlp_probe(now);
             }
 
+            // 6. FORWARD TSN retransmission (PR-SCTP)
+            let fwd_timeout = self.forward_tsn_timeout(now);
+
             let sleep_duration = rto_timeout
                 .min(heartbeat_timeout)
                 .min(t1_timeout)
                 .min(sack_timeout)
-                .min(tlp_timeout);
+                .min(tlp_timeout)
+                .min(fwd_timeout);
 
             tokio::select! {
                 _ = close_rx.notified() => {
@@ -1248,6 +1257,15 @@ impl SctpInner {
                         trace!("SCTP handle timeout error: {}", e);
                     }
 
+                    // A FORWARD TSN the peer has not caught up with is due again
+                    if self.forward_tsn_due(Instant::now()) {
+                        self.forward_tsn_pending.store(true, Ordering::SeqCst);
+                        self.rto_state.lock().backoff();
+                        if let Err(e) = self.transmit().await {
+                            trace!("Transmit error: {}", e);
+                        }
+                    }
+
                     // Check Heartbeat Timer
                     if Instant::now() >= last_heartbeat + heartbeat_interval {
                         if let Err(e) = self.send_heartbeat().await {
@@ -1289,6 +1307,27 @@ impl SctpInner {
         let final_state = *self.state.lock();
         if final_state == SctpState::Closed {
             self.print_stats("LOOP_EXIT");
+        }
+    }
+
+    fn forward_tsn_timeout(&self, now: Instant) -> Duration {
+        match *self.forward_tsn_sent_at.lock() {
+            Some(sent) => {
+                let due = sent + Duration::from_secs_f64(self.rto_state.lock().rto);
+                if due > now {
+                    due - now
+                } else {
+                    Duration::from_millis(1)
+                }
+            }
+            None => Duration::from_secs(3600),
+        }
+    }
+
+    fn forward_tsn_due(&self, now: Instant) -> bool {
+        match *self.forward_tsn_sent_at.lock() {
+            Some(sent) => now >= sent + Duration::from_secs_f64(self.rto_state.lock().rto),
+            None => false,
         }
     }
 
@@ -1946,6 +1985,27 @@ impl SctpInner {
             self.flow_control_notify.notify_one();
             self.flow_control_notify.notify_waiters();
 
+            // PR-SCTP (RFC 3758 3.5): the advanced peer ack point lives in OUR TSN space and
+            // never lags behind the peer's cumulative ack (C1). While the peer is still
+            // behind it, our FORWARD TSN was lost or has not arrived: it is due again (C3).
+            // (An overtaken SACK says nothing about where the peer is now.)
+            if !stale {
+                let advanced = self.advanced_peer_ack_tsn.load(Ordering::SeqCst);
+                if tsn_gt(advanced, cumulative_tsn_ack) {
+                    if self.has_pr_sctp.load(Ordering::Relaxed) {
+                        self.forward_tsn_pending.store(true, Ordering::SeqCst);
+                    }
+                } else {
+                    if tsn_gt(cumulative_tsn_ack, advanced) {
+                        self.advanced_peer_ack_tsn
+                            .store(cumulative_tsn_ack, Ordering::SeqCst);
+                    }
+                    // the peer has passed everything skipped so far
+                    self.forward_tsn_streams.lock().clear();
+                    *self.forward_tsn_sent_at.lock() = None;
+                }
+            }
+
             let sack_sig = {
                 let mut sig = (cumulative_tsn_ack as u64) << 32;
                 for (start, end) in &gap_blocks {
@@ -2346,7 +2406,9 @@ impl SctpInner {
         }
 
         let old_cumulative_tsn = self.cumulative_tsn_ack.load(Ordering::SeqCst);
-        if new_cumulative_tsn > old_cumulative_tsn {
+        // TSNs are serial numbers: compare them as such, or the chunk is ignored (or
+        // buffered data wrongly purged) once the TSN space wraps.
+        if tsn_gt(new_cumulative_tsn, old_cumulative_tsn) {
             debug!(
                 "FORWARD TSN: moving cumulative ack from {} to {}",
                 old_cumulative_tsn, new_cumulative_tsn
@@ -2356,7 +2418,21 @@ impl SctpInner {
 
             {
                 let mut received_queue = self.received_queue.lock();
-                received_queue.retain(|&tsn, _| tsn > new_cumulative_tsn);
+                let mut released = 0usize;
+                received_queue.retain(|&tsn, (_, chunk)| {
+                    let keep = tsn_gt(tsn, new_cumulative_tsn);
+                    if !keep {
+                        released += chunk.len();
+                    }
+                    keep
+                });
+                if released > 0 {
+                    let _ = self.used_rwnd.fetch_update(
+                        Ordering::Relaxed,
+                        Ordering::Relaxed,
+                        |u| Some(u.saturating_sub(released)),
+                    );
+                }
             }
 
             // Advance SSNs for ordered streams
@@ -2384,6 +2460,30 @@ impl SctpInner {
                 }
             }
 
+            // Chunks that were buffered behind the skipped TSNs are in order now: deliver
+            // them, exactly as handle_data() does when a gap is filled.
+            loop {
+                let next_tsn = self
+                    .cumulative_tsn_ack
+                    .load(Ordering::SeqCst)
+                    .wrapping_add(1);
+                let entry = self.received_queue.lock().remove(&next_tsn);
+                let Some((p_flags, p_chunk)) = entry else {
+                    break;
+                };
+                let chunk_len = p_chunk.len();
+                self.process_data_payload(p_flags, p_chunk).await?;
+                self.cumulative_tsn_ack.store(next_tsn, Ordering::SeqCst);
+                self.used_rwnd.fetch_sub(chunk_len, Ordering::Relaxed);
+            }
+            self.schedule_sack_immediate();
+
+            self.timer_notify.notify_one();
+        } else {
+            // RFC 3758 3.6: a FORWARD TSN that does not advance our cumulative TSN is a
+            // duplicate - the SACK that acknowledged the first copy was probably lost. Answer
+            // it, or the peer keeps re-sending the chunk for ever.
+            self.schedule_sack_immediate();
             self.timer_notify.notify_one();
         }
 
@@ -3540,6 +3640,7 @@ impl SctpInner {
                 && let Some(fwd_chunk) = self.create_forward_tsn_chunk()
             {
                 chunks_to_send.push(fwd_chunk);
+                *self.forward_tsn_sent_at.lock() = Some(Instant::now());
             }
         }
 
@@ -3604,11 +3705,9 @@ impl SctpInner {
         }
 
         // Advance the advanced peer ack point past consecutive abandoned chunks
-        let last_sacked = self.cumulative_tsn_ack.load(Ordering::SeqCst);
-        let mut advanced = self.advanced_peer_ack_tsn.load(Ordering::SeqCst);
-        if tsn_gt(last_sacked, advanced) {
-            advanced = last_sacked;
-        }
+        // Send-side TSN space: kept level with the peer's cumulative ack by handle_sack().
+        // (`cumulative_tsn_ack` is the RECEIVE side and must not be mixed in here.)
+        let advanced = self.advanced_peer_ack_tsn.load(Ordering::SeqCst);
 
         let mut new_advanced = advanced;
         let mut has_abandoned = false;
@@ -3652,8 +3751,18 @@ impl SctpInner {
                 }
             }
             {
+                // keep pairs of earlier advancements the peer has not acknowledged yet
                 let mut fwd = self.forward_tsn_streams.lock();
-                *fwd = stream_ssn.into_iter().collect();
+                for (sid, ssn) in stream_ssn {
+                    match fwd.iter_mut().find(|e| e.0 == sid) {
+                        Some(e) => {
+                            if ssn_gt(ssn, e.1) {
+                                e.1 = ssn;
+                            }
+                        }
+                        None => fwd.push((sid, ssn)),
+                    }
+                }
             }
             for t in remove {
                 sent_queue.remove(&t);
@@ -3667,15 +3776,9 @@ impl SctpInner {
 
     fn create_forward_tsn_chunk(&self) -> Option<Bytes> {
         let advanced = self.advanced_peer_ack_tsn.load(Ordering::SeqCst);
-        let last_sacked = self.cumulative_tsn_ack.load(Ordering::SeqCst);
-        if !tsn_gt(advanced, last_sacked) {
-            return None;
-        }
 
-        let stream_ssn_pairs: Vec<(u16, u16)> = {
-            let mut fwd = self.forward_tsn_streams.lock();
-            std::mem::take(&mut *fwd)
-        };
+        // Kept (not taken): the chunk is sent again while the peer's cumulative ack is behind.
+        let stream_ssn_pairs: Vec<(u16, u16)> = self.forward_tsn_streams.lock().clone();
 
         let pair_bytes = stream_ssn_pairs.len() * 4;
         let mut body = BytesMut::with_capacity(4 + pair_bytes);
